@@ -112,6 +112,42 @@ def run(ctx: Ctx):
             if f in ("A + a", "a + B"):
                 if "a" not in names or arr[:, names.index("a")].tolist() != [float(v) for v in avals]:
                     ctx.fail(f"{route}: numeric column a (dtype {nd}) did not pass through unchanged: {names}", {**rp, "route": route})
+    # (3) text columns with missing entries (in first position too): still dummy-coded, the null rows dropped, every cell numeric
+    for t in TEXT:
+        for pos in (0, 2, 4):
+            for out in ("pandas", "numpy", "sparse"):
+                vals = ["b", "a", "c", "a", "c", "b", "a"]          # every level survives the removals below
+                vals[pos] = None
+                if rng.random() < 0.5:
+                    vals[(pos + 3) % 7] = None
+                keep = [k for k, v in enumerate(vals) if v is not None]
+                try:
+                    if t.startswith("category"):
+                        ser = pd.Series(pd.Categorical(vals, categories=["a", "b", "c"]))
+                    elif t == "object":
+                        ser = pd.Series([np.nan if v is None else v for v in vals], dtype=object) if rng.random() < 0.5 else pd.Series(vals, dtype=object)
+                    else:
+                        ser = pd.Series(vals, dtype=t)
+                    df = pd.DataFrame({"A": ser, "a": [float(k) for k in range(7)]})
+                except Exception:
+                    continue
+                rp = {"kind": "dtypes-nulls", "text_dtype": t, "A": vals, "output": out}
+                routes = {"pandas": lambda: model_matrix("A + a", df, output=out),
+                          "narwhals/pandas": lambda: NarwhalsMaterializer(df).get_model_matrix("A + a", output=out)}
+                for route, fn in routes.items():
+                    ctx.oracle_runs += 1
+                    try:
+                        mm = fn()
+                        raw = np.asarray(mm.toarray() if out == "sparse" else (mm.to_numpy() if hasattr(mm, "to_numpy") else mm))
+                        arr = np.asarray(raw, dtype=float)
+                    except Exception as e:
+                        ctx.fail(f"{route}: text column {vals} (dtype {t}) with missing entries: {type(e).__name__}: {e}", {**rp, "route": route})
+                        continue
+                    names = list(mm.model_spec.column_names)
+                    want = np.array([[1.0, 1.0 if vals[k] == "b" else 0.0, 1.0 if vals[k] == "c" else 0.0, float(k)] for k in keep])
+                    if names != ["Intercept", "A[T.b]", "A[T.c]", "a"] or arr.shape != want.shape or not np.array_equal(arr, want):
+                        ctx.fail(f"{route}: text column {vals} (dtype {t}) is not dummy-coded over its non-missing rows: columns {names}, values {arr.tolist()}", {**rp, "route": route})
+                    ctx.count("dtypes", "text-with-nulls")
     ctx.samples.append({"text dtypes": TEXT, "numeric dtypes": NUMS, "formulas": FORMS})
 
 
